@@ -707,9 +707,10 @@ peg::parser! {
             [Token::Word(w, num_loc) if w.chars().all(|c: char| c.is_ascii_digit())]
             &([Token::Operator(o, redir_loc) if
                     o.starts_with(['<', '>']) &&
-                    locations_are_contiguous(num_loc, redir_loc)]) {
-
-                w.parse().unwrap()
+                    locations_are_contiguous(num_loc, redir_loc)]) {?
+                // N.B. Digits that don't fit a file descriptor number aren't an I/O number;
+                // they are left to be an ordinary word.
+                w.parse().or(Err("io number"))
             }
 
         //
